@@ -10,7 +10,8 @@ CHECK_MODULE = "Check.C16"
 COQ_IMPORTS = "Model.Feature"
 SHARD = 300
 MODES = {"loose": "ALoose", "strict": "AStrict", "center": "ACenter"}
-RULE = ("features with n = 1..12 rows of dimension 2-D / 3-D / 4-D whose first entry encodes the row index, windows "
+RULE = ("[also: ufuncs with thirteen kinds of scalar operand on either side] " +
+        "features with n = 1..12 rows of dimension 2-D / 3-D / 4-D whose first entry encodes the row index, windows "
         "with duration, step in 1..3 ticks and start in -1..1: every focus segment with bounds in -8..n*step+8 "
         "(sampled in quick) left of, right of, straddling either end of, or covering the data, timeline focuses of up "
         "to 3 segments, each mode, fixed in {None, 0, duration, duration+step, duration+3*step+1} (long enough for >= 0 "
